@@ -62,6 +62,8 @@ func c17(r *engine.Report, p *engine.Program) {
 				r.Add("R1-close-owner", construct, ci.Pos(), engine.Discharged, "body of a sync.Once.Do: at most one close")
 			case closeOwners[engine.FuncName(fn)] != "":
 				r.Add("R1-close-owner", construct, ci.Pos(), engine.Discharged, "owner table: "+closeOwners[engine.FuncName(fn)])
+			case helperOfOwner(p, fn) != "":
+				r.Add("R1-close-owner", construct, ci.Pos(), engine.Discharged, "private helper called only from the owner "+helperOfOwner(p, fn)+": "+closeOwners[helperOfOwner(p, fn)])
 			default:
 				ok, why := localCloseOK(p, fn, ci, closes)
 				r.Check("R1-close-owner", construct, ci.Pos(), ok, why, why)
@@ -390,4 +392,31 @@ func isRangeKeyOfSameMap(lk *ssa.Lookup) bool {
 	f1, b1 := engine.FieldOfLoad(rg.X)
 	f2, b2 := engine.FieldOfLoad(lk.X)
 	return f1 != nil && f1 == f2 && b1 == b2
+}
+
+// helperOfOwner: fn is a named function all of whose call sites are in one function of the
+// close-owner table (and it is never used as a value).
+func helperOfOwner(p *engine.Program, fn *ssa.Function) string {
+	if fn.Parent() != nil {
+		return ""
+	}
+	obj, _ := fn.Object().(*types.Func)
+	if obj == nil || fnValueUses(p, fn) > 0 {
+		return ""
+	}
+	owner := ""
+	for _, cs := range p.CallSitesOf(obj) {
+		if engine.IsMock(cs.Parent()) {
+			continue
+		}
+		name := engine.FuncName(engine.Outermost(cs.Parent()))
+		if closeOwners[name] == "" {
+			return ""
+		}
+		if owner != "" && owner != name {
+			return ""
+		}
+		owner = name
+	}
+	return owner
 }
